@@ -20,9 +20,11 @@ import (
 	"encoding/json"
 	"fmt"
 	"os"
+	"runtime/pprof"
 	"sort"
 	"strconv"
 	"strings"
+	"time"
 
 	"github.com/piotrnar/gocoin/client/common"
 	"github.com/piotrnar/gocoin/client/wallet"
@@ -52,26 +54,41 @@ type rrec struct {
 }
 type snap map[[32]byte]*rrec
 
+// known holds every transaction id the harness ever put into a block (UnspentDB's maps are pre-sized for the
+// main net, so walking them after every block is too slow; the records are looked up by key instead).
+var known = map[[32]byte]bool{}
+
 func takeSnap(db *utxo.UnspentDB) snap {
 	s := snap{}
-	for i := range db.HashMap {
-		db.MapMutex[i].RLock()
-		for _, v := range db.HashMap[i] {
-			if v == nil {
-				continue
-			}
-			full := utxo.NewUtxoRec(*v)
-			rr := &rrec{TxID: full.TxID, Height: full.InBlock, CB: full.Coinbase, Outs: make([]*rout, len(full.Outs))}
-			for j, ou := range full.Outs {
-				if ou != nil {
-					rr.Outs[j] = &rout{ou.Value, append([]byte{}, ou.PKScr...)}
-				}
-			}
-			s[full.TxID] = rr
+	for id := range known {
+		var ind utxo.UtxoKeyType
+		copy(ind[:], id[:])
+		db.MapMutex[ind[0]].RLock()
+		v := db.HashMap[ind[0]][ind]
+		db.MapMutex[ind[0]].RUnlock()
+		if v == nil {
+			continue
 		}
-		db.MapMutex[i].RUnlock()
+		full := utxo.NewUtxoRec(*v)
+		rr := &rrec{TxID: full.TxID, Height: full.InBlock, CB: full.Coinbase, Outs: make([]*rout, len(full.Outs))}
+		for j, ou := range full.Outs {
+			if ou != nil {
+				rr.Outs[j] = &rout{ou.Value, append([]byte{}, ou.PKScr...)}
+			}
+		}
+		s[full.TxID] = rr
 	}
 	return s
+}
+
+// fullCount walks the whole UnspentDB (slow; done a few times per history) and counts the records.
+func fullCount(db *utxo.UnspentDB) (n int) {
+	for i := range db.HashMap {
+		db.MapMutex[i].RLock()
+		n += len(db.HashMap[i])
+		db.MapMutex[i].RUnlock()
+	}
+	return
 }
 
 func (s snap) lines() []string {
@@ -326,6 +343,7 @@ func newWorld(name string, seed uint64, min uint64, useMap uint32) *world {
 	wallet.InitMaps(true)
 	wallet.UpdateMapSizes() // creates mapsize.gob so that LoadMapSizes finds a file
 	w.byKey = map[string]*addr{}
+	known = map[[32]byte]bool{}
 	w.views = map[[32]byte]view{}
 	w.blkTxs = map[[32]byte][]*btc.Tx{}
 	w.views[k.Ch.LastBlock().BlockHash.Hash] = view{}
@@ -352,7 +370,9 @@ func (w *world) close() {
 		wallet.Disable()
 	}
 	common.BlockChain = nil
+	t := time.Now()
 	w.k.Close()
+	tClose += time.Since(t)
 	os.RemoveAll(w.home)
 }
 
@@ -363,7 +383,13 @@ func (w *world) addAddr(idx int, p []byte) *addr {
 	return a
 }
 
-func (w *world) ask(line string) string { return o.MustAsk(line) }
+var tOracle, tClose, tSnap time.Duration
+
+func (w *world) ask(line string) string {
+	t := time.Now()
+	defer func() { tOracle += time.Since(t) }()
+	return o.MustAsk(line)
+}
 
 func (w *world) onChange(kind string) {
 	if w.failed {
@@ -769,6 +795,10 @@ func (w *world) buildOn(parent *chain.BlockTreeNode, txs []*btc.Tx, cbOuts func(
 	}
 	bl.BuildTxList()
 	applyTx(v, bl.Txs[0], height, true)
+	known[bl.Txs[0].Hash.Hash] = true
+	for _, t := range ok {
+		known[t.Hash.Hash] = true
+	}
 	w.views[bl.Hash.Hash] = v
 	w.blkTxs[bl.Hash.Hash] = ok
 	return raw, true
@@ -811,6 +841,8 @@ func (w *world) checkView() {
 	}
 	if n != len(v) {
 		w.tieFail("utxo-view", fmt.Sprintf("UnspentDB has %d outputs, the harness's replay of the active chain %d", n, len(v)), nil)
+	} else if c := fullCount(w.k.Ch.Unspent); c != len(w.cur) {
+		w.tieFail("utxo-view", fmt.Sprintf("UnspentDB holds %d records, %d of them known to the harness", c, len(w.cur)), nil)
 	}
 }
 
@@ -1345,6 +1377,11 @@ func checkSip() {
 
 func main() {
 	r = vlib.NewRun("C17")
+	if pf := os.Getenv("C17_PPROF"); pf != "" {
+		f, _ := os.Create(pf)
+		pprof.StartCPUProfile(f)
+		defer pprof.StopCPUProfile()
+	}
 	var err error
 	o, err = vlib.StartOracle("c17")
 	if err != nil {
@@ -1387,19 +1424,23 @@ func main() {
 			}
 		}
 	}
+	base := r.Violations() // a model/impl disagreement of the unit comparisons does not stop the search for a failing history
 	for i, c := range corpus {
-		if r.Violations() > 0 {
+		if r.Violations() > base {
 			break
 		}
 		runNamed(fmt.Sprintf("corpus:min=%d,usemap=%d,type=%d", c.mn, c.um, c.idx), uint64(1000+i), -1)
 	}
 	n := r.N(10, 120)
-	for i := 0; i < n && r.Violations() == 0; i++ {
+	for i := 0; i < n && r.Violations() == base; i++ {
 		seed := r.Rng.U64()
 		nops := 40 + int(seed%40)
 		runNamed(fmt.Sprintf("random:ops=%d", nops), seed, -1)
 	}
+	pprof.StopCPUProfile()
 	r.Extra["oracle_requests"] = o.N
+	r.Extra["time_in_oracle_s"] = tOracle.Seconds()
+	r.Extra["time_in_chain_close_s"] = tClose.Seconds()
 	r.Finish("one evaluation = the real index after one block connection / disconnection / on-off switch of a generated history (corpus: boundaries of the quantifier per address type, minimum and useMapCnt; random: maturity phase + extend/reorg/undo/toggle mix); distinct = (scenario, seed, step)",
 		"For every address in play the real wallet.GetAllUnspent and record total are compared with a direct Go projection of UnspentDB (property predicate), and the Lean model (fed the UTXO change steps) is compared with the real index, with the real GetAllUnspent, and its Spec projection with the Go projection. Theorems in Props/C17.lean state the same equality for all histories of the model.")
 }
